@@ -7,6 +7,18 @@ from . import rsparse
 from .rsparse import LostAnchor, tokenize, match_brackets
 
 
+# set by Unit._emit_fn while the rules of one function run: inferred pure renames of its locals since the baseline
+CURRENT = {'renames': {}}
+
+
+def follow_renames(ghost_text, but_not=()):
+    """ghost text a rule brings along (closure contracts) may name locals of the function: follow their inferred renames"""
+    ren = {k: v for k, v in CURRENT['renames'].items() if k not in but_not}
+    if not ren or not ghost_text:
+        return ghost_text
+    from .unit import rename_line
+    return '\n'.join(rename_line(l, ren) for l in ghost_text.split('\n'))
+
 def _seq(toks, i, texts):
     if i < 0 or i + len(texts) > len(toks):
         return False
